@@ -10,6 +10,7 @@ import Mathlib.Tactic.LinearCombination
 import Mathlib.Tactic.FieldSimp
 import Mathlib.Tactic.Positivity
 import Mathlib.Tactic.Linarith
+import Mathlib.Tactic.FinCases
 import Mathlib.Algebra.Field.Basic
 import Mathlib.Algebra.Order.Field.Basic
 import Mathlib.Algebra.CharZero.Defs
@@ -136,4 +137,27 @@ theorem im_eq_zero_of_conj_eq {a : Cx K} (h : conj a = a) : a.im = 0 := by
   linarith
 end field
 end Cx
+
+section frame
+variable {K : Type} [Field K]
+
+/-- an orthonormal pair `m, n` and `ξ = m × n` resolve the identity: `v = (v·m) m + (v·n) n + (v·ξ) ξ`. -/
+theorem frame_resolution (m n v : Vec K) (hm : dot m m = 1) (hn : dot n n = 1) (hmn : dot m n = 0) (c : Fin 3) :
+    v c = dot v m * m c + dot v n * n c + dot v (cross m n) * cross m n c := by
+  simp only [dot, sum3] at hm hn hmn
+  fin_cases c
+  · simp only [dot, cross, sum3]; simp
+    linear_combination (-(v 0 * (n 0 * n 0 + n 1 * n 1 + n 2 * n 2)) + (v 0 * n 0 + v 1 * n 1 + v 2 * n 2) * n 0) * hm
+      + (-(v 0) + (v 0 * m 0 + v 1 * m 1 + v 2 * m 2) * m 0) * hn
+      + (v 0 * (m 0 * n 0 + m 1 * n 1 + m 2 * n 2) - ((v 0 * m 0 + v 1 * m 1 + v 2 * m 2) * n 0 + (v 0 * n 0 + v 1 * n 1 + v 2 * n 2) * m 0)) * hmn
+  · simp only [dot, cross, sum3]; simp
+    linear_combination (-(v 1 * (n 0 * n 0 + n 1 * n 1 + n 2 * n 2)) + (v 0 * n 0 + v 1 * n 1 + v 2 * n 2) * n 1) * hm
+      + (-(v 1) + (v 0 * m 0 + v 1 * m 1 + v 2 * m 2) * m 1) * hn
+      + (v 1 * (m 0 * n 0 + m 1 * n 1 + m 2 * n 2) - ((v 0 * m 0 + v 1 * m 1 + v 2 * m 2) * n 1 + (v 0 * n 0 + v 1 * n 1 + v 2 * n 2) * m 1)) * hmn
+  · simp only [dot, cross, sum3]; simp
+    linear_combination (-(v 2 * (n 0 * n 0 + n 1 * n 1 + n 2 * n 2)) + (v 0 * n 0 + v 1 * n 1 + v 2 * n 2) * n 2) * hm
+      + (-(v 2) + (v 0 * m 0 + v 1 * m 1 + v 2 * m 2) * m 2) * hn
+      + (v 2 * (m 0 * n 0 + m 1 * n 1 + m 2 * n 2) - ((v 0 * m 0 + v 1 * m 1 + v 2 * m 2) * n 2 + (v 0 * n 0 + v 1 * n 1 + v 2 * n 2) * m 2)) * hmn
+
+end frame
 end Atomman.C12
